@@ -367,6 +367,9 @@ func rawClientHarness(name string, lz4 bool, size int, maxSplits int, bound int)
 				q.Header.StreamId = int16(i + 1)
 				payload = append(payload, envelope(q)...)
 			}
+			// ... followed by a request without a body (OPTIONS: exactly one header long) as the last envelope
+			op := frame.NewFrame(v5, 4, &message.Options{})
+			payload = append(payload, envelope(op)...)
 			_, _ = ce.Write(seg(payload, true, lz4))
 			for k := range sp {
 				sz, parts := vary(size, sp[k], k)
@@ -389,6 +392,11 @@ func rawClientHarness(name string, lz4 bool, size int, maxSplits int, bound int)
 			if got, _ := tagOf(f); got != fmt.Sprintf("multi-%d", i) {
 				o.Fail("C15:multi-envelope-order", "CqlServerConnection.readSelfContainedSegment", "position %d: received %s", i, got)
 			}
+		}
+		if f, err := sc.Receive(); err != nil {
+			o.Fail("C15:multi-envelope-lost", "CqlServerConnection.readSelfContainedSegment", "the bodyless request (OPTIONS) at the end of a segment of 4 envelopes was not received: %v", err)
+		} else if _, ok := f.Body.Message.(*message.Options); !ok {
+			o.Fail("C15:multi-envelope-order", "CqlServerConnection.readSelfContainedSegment", "expected OPTIONS as the 4th envelope, got %T", f.Body.Message)
 		}
 		for k := range sp {
 			f, err := sc.Receive()
